@@ -178,7 +178,11 @@ def run_mirsym_property(pid, tier, seed, harness_files, relevant_codes, outcome_
         mismatches = []
         for entry, s in samples:
             nat = run.native(entry, s["inputs"])
-            ok, why = engine.compare_trace(s["events"], nat["events"])
+            if entry.endswith("_uo"):
+                # the order of raw operations depends on the relative addresses of separate allocations
+                ok, why = engine.compare_trace(sorted(s["events"]), sorted(nat["events"]))
+            else:
+                ok, why = engine.compare_trace(s["events"], nat["events"])
             if nat["outcome"] != s["outcome"] or nat["violated"] or nat["diverged"]:
                 ok, why = False, "outcome %s vs %s violated=%s diverged=%s" % (s["outcome"], nat["outcome"], nat["violated"], nat["diverged"])
             if ok:
